@@ -3,7 +3,7 @@
 import sys,subprocess,glob,os,shutil
 fn,where=sys.argv[1],sys.argv[2]
 shutil.rmtree('/tmp/gwd',ignore_errors=True)
-subprocess.run(['/verif/bin/govc','-fn',fn,'-keep','-work','/tmp/gwd'],capture_output=True)
+subprocess.run([os.environ.get('GOVC','/verif/bin/govc'),'-repo',os.environ.get('REPO','/repo'),'-fn',fn,'-keep','-work','/tmp/gwd','-evidence',''],capture_output=True)
 cands=[f for f in glob.glob('/tmp/gwd/*reachable_return*z3-new.smt2') if where.replace('.','_').replace(':','_') in f]
 if not cands: sys.exit('no such query: '+str(glob.glob('/tmp/gwd/*reachable*')[:5]))
 f=cands[0]
